@@ -289,7 +289,7 @@ Fixpoint plain (e : expr) : bool :=
 
 Lemma ieval_units : forall e, plain e = true -> units (ieval e) = seval e.
 Proof.
-  induction e; simpl; intros Hp; try discriminate;
+  induction e; cbn [ieval seval plain]; intros Hp; try discriminate;
     try (apply andb_true_iff in Hp; destruct Hp as [Hp1 Hp2]).
   - apply from_utf16_spec.
   - apply to_value_spec.
